@@ -254,7 +254,7 @@ fn fmt_strategy() -> impl Strategy<Value = Fmt> {
     prop_oneof![Just(Fmt::Raw), Just(Fmt::Tokenized), Just(Fmt::Partial)]
 }
 
-fn history_strategy() -> impl Strategy<Value = History> {
+pub fn history_strategy() -> impl Strategy<Value = History> {
     (
         prop::option::of((fmt_strategy(), string_strategy(8))),
         proptest::collection::vec(
@@ -269,7 +269,7 @@ fn history_strategy() -> impl Strategy<Value = History> {
 }
 
 pub fn run(rep: &mut Report) {
-    let n = rep.n(30000, 900000);
+    let n = rep.n(200000, 2000000);
     rep.run_prop(
         "strings",
         "strings from seven classes (reference-written tokenized / partial strings, point mutations \
@@ -282,7 +282,7 @@ output re-parses. Non-trivial = accepted annotated string with >= 1 escape and >
         || string_strategy(14),
         test_string,
     );
-    let n = rep.n(8000, 250000);
+    let n = rep.n(60000, 600000);
     rep.run_prop(
         "histories",
         "sequences of 1-8 update_raw/update_tokenized/update_partial_annotation/reset_tags(k<=4) \
